@@ -284,7 +284,9 @@ def two_gateways(ctx: Ctx) -> None:
 def oracle(ctx: Ctx, per: int):
     from ramses_tx.command import Command  # noqa: PLC0415
     from ramses_tx.packet import Packet  # noqa: PLC0415
-    from ramses_tx.ramses import CODES_SCHEMA, CODES_WITH_ARRAYS  # noqa: PLC0415
+    from ramses_tx.ramses import CODE_IDX_ARE_COMPLEX, CODE_IDX_ARE_SIMPLE, CODES_SCHEMA, CODES_WITH_ARRAYS  # noqa: PLC0415
+
+    IDX_CODES = {str(c) for c in CODE_IDX_ARE_SIMPLE | CODE_IDX_ARE_COMPLEX}       # the codes whose first byte the library itself reads as an index
 
     rnd = ctx.rng
     cmds = [(c, "constructor") for c in constructors()]
@@ -391,6 +393,11 @@ def oracle(ctx: Ctx, per: int):
                         alt = rp[:a] + piece + rp[b:]
                         if alt != rp and re.match(rx, alt):
                             misses.append((f"context[{a}:{b}]", f"045 {rverb} --- {cmd.dst.id} {GW} --:------ {code} {len(alt) // 2:03d} {alt}"))
+            elif rp[:2] == "00" and cmd.dst.type in ("10", "13") and code in IDX_CODES:
+                # a reply that carries NO context (a relay's, an OpenTherm bridge's: index byte 00): the same payload with another index byte is not that reply
+                alt = "01" + rp[2:]
+                if re.match(rx, alt):
+                    misses.append(("context[index-byte-of-a-contextless-reply]", f"045 {rverb} --- {cmd.dst.id} {GW} --:------ {code} {len(alt) // 2:03d} {alt}"))
             if code == "0404" and rp[:2] == "00" and rp[2:4] in ("20", "23"):
                 # the hot-water schedule and zone 00's schedule both carry zone byte 00: the schedule type (23 / 20) tells them apart
                 alt = rp[:2] + ("20" if rp[2:4] == "23" else "23") + rp[4:]
